@@ -1,35 +1,58 @@
 """C01 -- batch span processor: exactly-once delivery, bounded batches, exclusive exporter.
 
-model      : BSP.tla (implementation-shaped, one action per critical section) checked exhaustively by
-             TLC for a family of small configurations against the contract carried by its monitor
-             variables; a NoKnown config demonstrates that TLC finds the known deviations D1/D4.
-spec->code : TLC -simulate behaviours of BSPSim.tla (BSP + history of instrumentation-point keys) are
-             replayed on the real processor: vh.Sched holds every goroutine at its hook / exporter /
-             call gate until the behaviour says it is its turn.
+model      : BSP.tla (implementation-shaped, one action per critical section; exporter answers
+             ok / error / timeout, caller contexts that expire, timer-triggered export) checked
+             exhaustively by TLC for a family of small configurations against the contract carried by its
+             monitor variables; NoD<k> configs demonstrate that TLC finds each known deviation; the
+             pre-ada0bc0 code shape must still violate `Stuck` (D2/D3), the current one satisfies `Stuck`
+             and `Termination`; a model-level mutation (batch kept after a failed export) must violate NoDup.
+spec->code : TLC -simulate behaviours of BSPSim.tla (BSP + history of instrumentation-point keys, exporter
+             answers and context expiries) are replayed on the real processor: vh.Sched holds every
+             goroutine at its hook / exporter / call gate until the behaviour says it is its turn.
 code->spec : every real execution (replayed behaviours, directed schedules, seeded random scenarios
-             with schedule perturbation and slow/failing/timing-out exporters) is recorded as ndjson and
-             validated by TLC against the total contract monitor BSPContract.tla (Trace_BSP.tla).
+             with schedule perturbation, slow/failing/timing-out exporters and cancelled / expiring caller
+             contexts) is recorded as ndjson and validated by TLC against the total contract monitor
+             BSPContract.tla (Trace_BSP.tla).
 """
 import json
 import os
 
 S = "BSP"
+ALL = ("ok", "error", "timeout")
 
 
 def tla_set(xs):
     return "{" + ", ".join('"%s"' % x for x in xs) + "}"
 
 
-def mc_defs(p, k, q, b, blocking, f, s, known=True, stuck=False):
+def mc_defs(p, k, q, b, blocking, f, s, known=True, inv="Stuck", shape="current", outcomes=ALL, expiring=(), et=True,
+            reset=True, timersim=False):
     return {"PRODUCERS": tla_set(["p%d" % (i + 1) for i in range(p)]),
             "FLUSHERS": tla_set(["f%d" % (i + 1) for i in range(f)]),
             "STOPPERS": tla_set(["s%d" % (i + 1) for i in range(s)]),
             "SPANSPER": k, "QCAP": q, "MAXBATCH": b, "BLOCKING": "TRUE" if blocking else "FALSE",
-            "ALLOWKNOWN": "TRUE" if known else "FALSE", "STUCK": "Stuck" if stuck else ""}
+            "ALLOWKNOWN": "TRUE" if known else "FALSE", "STUCK": inv, "CODESHAPE": shape,
+            "OUTCOMES": tla_set(outcomes), "EXPIRING": tla_set(expiring), "EXPORTTIMEOUT": "TRUE" if et else "FALSE",
+            "RESETONFAILURE": "TRUE" if reset else "FALSE", "TIMERSIM": "TRUE" if timersim else "FALSE"}
 
 
-def cfg_name(p, k, q, b, blocking, f, s):
-    return "p%dx%d-q%d-b%d-%s-f%d-s%d" % (p, k, q, b, "blk" if blocking else "drop", f, s)
+def cfg_name(p, k, q, b, blocking, f, s, **kw):
+    n = "p%dx%d-q%d-b%d-%s-f%d-s%d" % (p, k, q, b, "blk" if blocking else "drop", f, s)
+    if kw.get("expiring"):
+        n += "-exp_" + "_".join(kw["expiring"])
+    if kw.get("et") is False:
+        n += "-noET"
+    if kw.get("timersim"):
+        n += "-timer"
+    return n
+
+
+def ends(*keys):
+    """script fragment: the named spans pass the stopped check and are enqueued"""
+    out = []
+    for k in keys:
+        out += [k + "@call", k + "@bsp.onend.checked", k + "@bsp.enq.sent"]
+    return out
 
 
 DIRECTED = [
@@ -61,12 +84,92 @@ DIRECTED = [
     dict(name="check-then-stop-then-enqueue", producers=2, spansPer=1, qcap=2, maxbatch=2, flushers=0, stoppers=1,
          script=["p1:1@call", "p1:1@bsp.onend.checked", "p1:1@bsp.enq.sent", "p2:1@call", "s1@call",
                  "p2:1@bsp.onend.checked", "p2:1@bsp.enq.sent", "s1@bsp.sd.stopped", "s1@bsp.sd.closed"]),
+    # ---- the repaired shape (ada0bc0): blocking sends look at stopCh
+    # (former D2) blocking mode, two Ends past the stopped check, Shutdown drains and returns, the first
+    # fills the queue, the second must give up (Abandoned) and RETURN; a later Shutdown: D4 class
+    dict(name="end-after-drain-blocking", producers=2, spansPer=1, qcap=1, maxbatch=1, blocking=True, flushers=0, stoppers=2,
+         script=["p1:1@call", "p2:1@call", "s1@call", "s1@bsp.sd.stopped", "s1@bsp.sd.closed", "w@bsp.drain.empty",
+                 "p1:1@bsp.onend.checked", "p1:1@bsp.enq.sent", "p2:1@bsp.onend.checked", "p2:1@bsp.enq.stopped", "s2@call"]),
+    # (former D3) ForceFlush past the stopped check, Shutdown drains and returns, a span fills the queue,
+    # the marker cannot be sent: ForceFlush must take the bsp.ff.stopch exit and RETURN
+    dict(name="flush-marker-after-drain", producers=1, spansPer=1, qcap=1, maxbatch=1, flushers=1, stoppers=1,
+         script=["p1:1@call", "f1@call", "s1@call", "s1@bsp.sd.stopped", "s1@bsp.sd.closed", "w@bsp.drain.empty",
+                 "p1:1@bsp.onend.checked", "p1:1@bsp.enq.sent", "f1@bsp.ff.checked", "f1@bsp.ff.stopch"]),
+    # blocking End parked on a full queue while the worker is held in the exporter; Shutdown begins: the End is
+    # released through stopCh (Abandoned, not counted as dropped); the drain then exports the queued span
+    # (its `exporting spans` log line shows the dropped counter after the abandon)
+    dict(name="abandon-while-draining", producers=2, spansPer=2, qcap=1, maxbatch=1, blocking=True, flushers=0, stoppers=1,
+         script=ends("p1:1") + ["w@bsp.worker.dequeued:p1:1", "w@bsp.worker.appended:p1:1"] + ends("p1:2") +
+         ["p2:1@call", "p2:1@bsp.onend.checked", "s1@call", "s1@bsp.sd.stopped", "p2:1@bsp.enq.stopped",
+          "s1@bsp.sd.closed", "x@exp.begin"]),
+    # ---- exporter answers
+    # a failed size-triggered export and a failed flush export: every span handed exactly once, no retry
+    dict(name="export-errors", producers=1, spansPer=4, qcap=4, maxbatch=2, flushers=2, stoppers=1,
+         outcomes=["error", "error", "ok"],
+         script=ends("p1:1", "p1:2") + ["w@bsp.worker.dequeued:p1:1", "w@bsp.worker.appended:p1:1",
+                                        "w@bsp.worker.dequeued:p1:2", "w@bsp.worker.appended:p1:2", "x@exp.begin"] +
+         ends("p1:3") + ["f1@call", "f1@bsp.ff.checked", "f1@bsp.ff.marker", "w@bsp.worker.dequeued:p1:3",
+                         "w@bsp.worker.appended:p1:3", "f1@bsp.ff.flushed", "x@exp.begin"] +
+         ends("p1:4") + ["f2@call", "s1@call"]),
+    # exporter that only gives up at the export timeout (ctx deadline from ExportTimeout), then Shutdown
+    dict(name="export-timeout", producers=1, spansPer=3, qcap=4, maxbatch=1, flushers=1, stoppers=1, exportTimeoutMs=20,
+         outcomes=["timeout", "ok", "timeout"],
+         script=ends("p1:1") + ["w@bsp.worker.dequeued:p1:1", "w@bsp.worker.appended:p1:1"] + ends("p1:2", "p1:3") +
+         ["f1@call", "f1@bsp.ff.checked", "x@exp.begin", "f1@bsp.ff.marker", "s1@call"]),
+    # ---- caller contexts
+    # D5: Shutdown's ctx expires while the worker is held in the exporter: it returns ctx.Err(); a second Shutdown
+    # returns nil at once; the drain then exports the queued span after both have returned
+    dict(name="D5-expired-shutdown", producers=1, spansPer=2, qcap=4, maxbatch=1, flushers=0, stoppers=2, ctx={"s1": "cancel"},
+         script=ends("p1:1", "p1:2") + ["w@bsp.worker.dequeued:p1:1", "w@bsp.worker.appended:p1:1", "s1@call",
+                                        "s1@ctx.expire/s1@bsp.sd.stopped", "s1@bsp.sd.stopped", "s2@call", "x@exp.begin"]),
+    # D6: ForceFlush whose ctx becomes done after the stopped check: when the marker select takes the ctx
+    # exit the batch is exported as it is; if that (empty) export finishes first ForceFlush returns nil although
+    # the two queued spans were not handed over (two coin flips of Go's select per flusher)
+    dict(name="D6-flush-ctx-done-before-marker", producers=1, spansPer=2, qcap=8, maxbatch=8, flushers=4, stoppers=1,
+         exportTimeoutMs=0, slowDoneUs=400, ctx={"f1": "cancel", "f2": "cancel", "f3": "cancel", "f4": "cancel"},
+         script=ends("p1:1", "p1:2") +
+         sum([["f%d@call" % i, "f%d@ctx.expire/f%d@bsp.ff.checked" % (i, i), "f%d@bsp.ff.checked" % i] for i in (1, 2, 3, 4)], []) +
+         ["s1@call", "w@bsp.worker.dequeued:p1:1"]),
+    # ForceFlush's ctx expires while it waits for its marker (worker held in the exporter): returns ctx.Err(),
+    # promises nothing; the marker stays queued and is discarded by the worker later
+    dict(name="flush-ctx-expires-waiting-for-marker", producers=1, spansPer=3, qcap=4, maxbatch=1, flushers=2, stoppers=1,
+         ctx={"f1": "deadline"},
+         script=ends("p1:1") + ["w@bsp.worker.dequeued:p1:1", "w@bsp.worker.appended:p1:1"] + ends("p1:2") +
+         ["f1@call", "f1@bsp.ff.checked", "f1@ctx.expire/f1@bsp.ff.marker", "f1@bsp.ff.marker", "x@exp.begin"] +
+         ends("p1:3") + ["f2@call", "s1@call"]),
+    # ForceFlush's ctx expires while its own export is in flight: it returns ctx.Err() while the export goes on in
+    # the background; the worker's next export must still wait for it (exclusive exporter)
+    dict(name="flush-ctx-expires-during-export", producers=1, spansPer=3, qcap=4, maxbatch=2, flushers=1, stoppers=1,
+         ctx={"f1": "cancel"}, exportTimeoutMs=0,
+         script=ends("p1:1") + ["w@bsp.worker.dequeued:p1:1", "w@bsp.worker.appended:p1:1", "f1@call", "f1@bsp.ff.checked",
+                                "f1@bsp.ff.marker", "f1@bsp.ff.flushed", "f1@ctx.expire/"] + ends("p1:2", "p1:3") +
+         ["w@bsp.worker.dequeued:p1:2", "x@exp.begin", "w@bsp.worker.appended:p1:2", "w@bsp.worker.dequeued:p1:3",
+          "w@bsp.worker.appended:p1:3", "x@exp.begin", "s1@call"]),
+    # Shutdown with an already-cancelled ctx, ForceFlush with an already-cancelled ctx
+    dict(name="cancelled-contexts", producers=1, spansPer=2, qcap=4, maxbatch=2, flushers=1, stoppers=2,
+         ctx={"f1": "cancelled", "s1": "cancelled"},
+         script=ends("p1:1") + ["f1@call"] + ends("p1:2") + ["s1@call", "s2@call"]),
+    # ---- timer-triggered export (tiny BatchTimeout): the worker has nothing else to do, the timer fires, the
+    # export is held at the exporter's gate while a ForceFlush and a size-triggered batch pile up behind it
+    dict(name="timer-vs-flush", producers=1, spansPer=4, qcap=4, maxbatch=2, flushers=1, stoppers=1, batchTimeoutUs=1500,
+         script=ends("p1:1") + ["w@bsp.worker.dequeued:p1:1", "w@bsp.worker.appended:p1:1"] + ends("p1:2", "p1:3") +
+         ["f1@call", "f1@bsp.ff.checked", "f1@bsp.ff.marker", "x@exp.begin", "w@bsp.worker.dequeued:p1:2",
+          "w@bsp.worker.appended:p1:2", "w@bsp.worker.dequeued:p1:3", "w@bsp.worker.appended:p1:3", "x@exp.begin",
+          "f1@bsp.ff.flushed"] + ends("p1:4") + ["w@bsp.worker.dequeued:p1:4", "w@bsp.worker.appended:p1:4", "x@exp.begin",
+                                                 "s1@call"]),
+    dict(name="timer-vs-shutdown", producers=1, spansPer=2, qcap=4, maxbatch=4, flushers=0, stoppers=1, batchTimeoutUs=1500,
+         script=ends("p1:1") + ["w@bsp.worker.dequeued:p1:1", "w@bsp.worker.appended:p1:1"] + ends("p1:2") +
+         ["s1@call", "s1@bsp.sd.stopped", "s1@bsp.sd.closed", "x@exp.begin", "w@bsp.drain.dequeued:p1:2", "w@bsp.drain.empty"]),
 ]
+# what each known-deviation schedule is expected to exhibit (binding of the gates; a note, never a verdict)
+EXPECT = {"D1-flush-during-shutdown": "flush-missed-during-shutdown", "D4-enqueue-after-drain": "shutdown-missed-raced",
+          "end-after-drain-blocking": "shutdown-missed-raced", "D5-expired-shutdown": "export-after-expired-shutdown",
+          "D6-flush-ctx-done-before-marker": "flush-missed-ctx-done-no-marker"}
 
 
 def scenario(d, blocking=False):
     sc = dict(producers=1, spansPer=1, qcap=2, maxbatch=2, blocking=blocking, flushers=0, flushesPer=1, stoppers=1,
-              batchTimeoutUs=0, exportTimeoutMs=30000, expMode="ok", perturb=0.0)
+              batchTimeoutUs=0, exportTimeoutMs=30000, expMode="ok", perturb=0.0, slowDoneUs=0)
     sc.update(d)
     return sc
 
@@ -75,25 +178,69 @@ def run(ctx):
     thorough = ctx.tier == "thorough"
     binp = ctx.go_build("c01")
     # ------------------------------------------------------------ exhaustive model checking
-    fam = [(2, 1, 1, 1, False, 1, 1), (2, 1, 1, 1, True, 1, 1), (2, 1, 2, 2, False, 1, 2), (3, 1, 2, 1, False, 0, 1)]
+    # (p, k, q, b, blocking, f, s, extra): every config checks the contract, the accounting of the hook events
+    # and `Stuck` (nothing blocks forever) for the current code shape
+    fam = [((2, 1, 1, 1, False, 1, 1), {}), ((2, 1, 1, 1, True, 1, 1), {}), ((2, 1, 2, 2, False, 1, 2), {}),
+           ((3, 1, 2, 1, False, 0, 1), {}),
+           # caller contexts that expire (ForceFlush f1 / Shutdown s1), with and without an export timeout
+           ((1, 2, 1, 1, False, 1, 1), dict(expiring=("f1", "s1"), cov=True)),
+           ((1, 2, 1, 1, False, 0, 2), dict(expiring=("s1",), cov=True)),
+           ((2, 1, 1, 1, True, 1, 1), dict(expiring=("f1",), et=False))]
     if thorough:
-        fam += [(2, 2, 2, 2, False, 1, 1), (2, 2, 1, 2, False, 1, 1), (2, 2, 2, 1, True, 1, 1), (2, 1, 1, 1, False, 2, 1),
-                (3, 1, 1, 2, False, 1, 1), (2, 2, 2, 2, False, 0, 2)]
-    for c in fam:
-        ctx.tlc(S, "MC_BSP", "MC_BSP.cfg", defines=mc_defs(*c), name="mc-" + cfg_name(*c), timeout=3000,
-                coverage=(c == fam[0]))
-    # TLC must find the known deviations when they are not admitted (guards against a vacuous contract)
+        fam += [((2, 2, 2, 2, False, 1, 1), {}), ((2, 2, 1, 2, False, 1, 1), {}), ((2, 2, 2, 1, True, 1, 1), {}),
+                ((2, 1, 1, 1, False, 2, 1), {}), ((3, 1, 1, 2, False, 1, 1), {}), ((2, 2, 2, 2, False, 0, 2), {}),
+                ((2, 2, 1, 1, True, 1, 1), {}), ((3, 1, 1, 1, True, 0, 1), {}),
+                ((2, 1, 1, 1, False, 1, 1), dict(expiring=("f1", "s1"))),
+                ((2, 1, 1, 1, True, 1, 1), dict(expiring=("f1", "s1"))),
+                ((2, 1, 1, 1, False, 1, 2), dict(expiring=("s1",), outcomes=("ok",))),
+                ((1, 2, 2, 2, False, 2, 1), dict(expiring=("f1", "f2"), et=False)),
+                ((2, 1, 2, 1, False, 1, 1), dict(expiring=("f1", "s1"), et=False))]
+    zero = None
+    for c, kw in fam:
+        kw = dict(kw)
+        cov = kw.pop("cov", False)  # coverage on two small configs that together enable every action
+        r = ctx.tlc(S, "MC_BSP", "MC_BSP.cfg", defines=mc_defs(*c, **kw), name="mc-" + cfg_name(*c, **kw), timeout=3000,
+                    coverage=cov)
+        if cov:
+            zero = set(r["zero_cov"]) if zero is None else zero & set(r["zero_cov"])
+    if zero:
+        ctx.note_inconclusive("vacuity: BSP.tla actions never taken in the coverage configs: %s" % sorted(zero))
+    # TLC must find each known deviation when it is not admitted (guards against a vacuous contract)
+    found = {}
+    for inv, c, kw in (("NoD1", (2, 1, 2, 2, False, 1, 1), {}), ("NoD4", (1, 1, 2, 2, False, 0, 2), {}),
+                       ("NoD5", (1, 2, 1, 1, False, 0, 2), dict(expiring=("s1",))),
+                       ("NoD6", (1, 1, 1, 1, False, 1, 1), dict(expiring=("f1",)))):
+        r = ctx.tlc(S, "MC_BSP", "MC_BSP.cfg", defines=mc_defs(*c, inv=inv, **kw), name="mc-" + inv.lower(),
+                    must_pass=False, count=False, timeout=600)
+        found[inv] = r["violated"]
+        if r["violated"] != inv:
+            ctx.note_inconclusive("model drift: TLC no longer finds the deviation excluded by %s (%s)" % (inv, r["out"]))
     r = ctx.tlc(S, "MC_BSP", "MC_BSP.cfg", defines=mc_defs(2, 1, 2, 2, False, 1, 2, known=False), name="mc-noknown",
                 must_pass=False, count=False, timeout=600)
     if r["violated"] != "Contract":
         ctx.note_inconclusive("model drift: TLC no longer finds D1/D4 when AllowKnown=FALSE (%s)" % r["out"])
-    # D2/D3 (blocking forever) are C15's subject; demonstrate that the model exhibits them
-    r = ctx.tlc(S, "MC_BSP", "MC_BSP.cfg", defines=mc_defs(2, 1, 1, 1, False, 1, 1, stuck=True), name="mc-stuck",
+    # the repaired defect (ada0bc0): the old shape must still deadlock (D2 blocking End, D3 marker send) ...
+    for blocking, nm in ((True, "mc-stuck-old-shape-blk"), (False, "mc-stuck-old-shape-drop")):
+        r = ctx.tlc(S, "MC_BSP", "MC_BSP.cfg", defines=mc_defs(2, 1, 1, 1, blocking, 1, 1, shape="pre-ada0bc0"), name=nm,
+                    must_pass=False, count=False, timeout=600)
+        found[nm] = r["violated"]
+        if r["violated"] != "Stuck":
+            ctx.note_inconclusive("model drift: the pre-ada0bc0 shape no longer violates Stuck (%s)" % r["out"])
+    # ... and a batch that survives a failed export must show up as a duplicate (the no-retry clause is not vacuous)
+    r = ctx.tlc(S, "MC_BSP", "MC_BSP.cfg", defines=mc_defs(2, 1, 1, 1, False, 1, 1, reset=False), name="mc-noreset",
                 must_pass=False, count=False, timeout=600)
-    ctx.extra["model_exhibits_stuck_D2_D3"] = (r["violated"] == "Stuck")
-    # liveness under fairness: every call returns. Queue large enough that it never fills, because a full
-    # queue after the drain is exactly D2/D3 (reported under C15).
-    ctx.tlc(S, "MC_BSP", "MC_BSP_live.cfg", defines=mc_defs(2, 1, 3, 1, False, 1, 1), name="live-p2x1-q3", timeout=1200)
+    found["mc-noreset"] = r["violated"]
+    if r["violated"] != "NoDup":
+        ctx.note_inconclusive("model drift: keeping the batch after a failed export does not violate NoDup (%s)" % r["out"])
+    ctx.extra["model_level_regressions"] = found
+    # liveness under fairness: every call returns and every background goroutine finishes, with queues that fill
+    live = [(2, 1, 1, 1, True, 1, 1), (2, 1, 1, 1, False, 1, 1)]
+    if thorough:
+        live += [(2, 2, 1, 1, True, 1, 1), (2, 1, 2, 1, False, 1, 2)]
+    for c in live:
+        ctx.tlc(S, "MC_BSP", "MC_BSP_live.cfg", defines=mc_defs(*c), name="live-" + cfg_name(*c), timeout=3000)
+    ctx.tlc(S, "MC_BSP", "MC_BSP_live.cfg", defines=mc_defs(1, 1, 1, 1, True, 1, 1, expiring=("f1", "s1")),
+            name="live-expiring", timeout=3000)
 
     # growth: the simple span processor obeys the same contract (SSP.tla, safety + liveness)
     ssp = {"PRODUCERS": tla_set(["p1", "p2", "p3"] if thorough else ["p1", "p2"]), "STOPPERS": tla_set(["s1", "s2"]),
@@ -102,12 +249,16 @@ def run(ctx):
 
     # ------------------------------------------------------------ spec -> code: behaviours as gate scripts
     scenarios = []
-    sims = [(2, 2, 2, 2, False, 1, 1), (2, 1, 1, 1, False, 1, 2), (2, 2, 1, 1, True, 1, 1), (3, 2, 2, 1, False, 2, 1)]
-    nsim = 400 if thorough else 40
+    sims = [((2, 2, 2, 2, False, 1, 1), {}), ((2, 1, 1, 1, False, 1, 2), {}), ((2, 2, 1, 1, True, 1, 1), {}),
+            ((3, 2, 2, 1, False, 2, 1), {}),
+            ((2, 2, 2, 2, False, 1, 1), dict(timersim=True, outcomes=("ok",))),
+            ((2, 1, 2, 2, False, 1, 2), dict(expiring=("f1", "s1"))),
+            ((2, 2, 1, 2, True, 1, 1), dict(expiring=("f1", "s1"), et=False))]
+    nsim = 400 if thorough else 30
     seen = set()
-    for c in sims:
-        r = ctx.tlc(S, "MC_BSPSim", "MC_BSPSim.cfg", defines=mc_defs(*c), workers=1, simulate="num=%d" % nsim, depth=300,
-                    name="sim-" + cfg_name(*c), timeout=900)
+    for c, kw in sims:
+        r = ctx.tlc(S, "MC_BSPSim", "MC_BSPSim.cfg", defines=mc_defs(*c, **kw), workers=1, simulate="num=%d" % nsim, depth=400,
+                    name="sim-" + cfg_name(*c, **kw), timeout=900)
         for s in r["prints"]:
             if isinstance(s, str) and s.startswith("BEHAVIOUR "):
                 if s in seen:
@@ -115,8 +266,12 @@ def run(ctx):
                 seen.add(s)
                 b = json.loads(s[len("BEHAVIOUR "):])
                 p, k, q, mb, blocking, f, st = c
-                scenarios.append(scenario(dict(name="sim-" + cfg_name(*c), producers=p, spansPer=k, qcap=q, maxbatch=mb,
-                                               flushers=f, stoppers=st, script=b["script"]), blocking=blocking))
+                et = kw.get("et", True)
+                d = dict(name="sim-" + cfg_name(*c, **kw), producers=p, spansPer=k, qcap=q, maxbatch=mb, flushers=f, stoppers=st,
+                         script=b["script"], outcomes=b["outcomes"], ctx={x: "deadline" for x in kw.get("expiring", ())},
+                         exportTimeoutMs=(0 if not et else 20 if "timeout" in b["outcomes"] else 30000),
+                         batchTimeoutUs=(1500 if kw.get("timersim") else 0))
+                scenarios.append(scenario(d, blocking=blocking))
     nbeh = len(scenarios)
     for d in DIRECTED:
         for rep in range(5 if thorough else 2):
@@ -144,6 +299,7 @@ def run(ctx):
     ctx.add_samples([{"behaviour_script": scenarios[0]["script"][:40]}] if scenarios else [])
     ctx.add_samples(res2["samples"][:1])
     kinds = {}
+    by_name = {}
     for tf, label in ((t1, "scripts"), (t2, "random")):
         viols, accepted = ctx.validate_trace(S, "Trace_BSP", "Trace_BSP.cfg", tf, name="trace-" + label, timeout=3000)
         ctx.extra["trace_lines_" + label] = accepted
@@ -164,20 +320,31 @@ def run(ctx):
                     cfg = rec
             scen.reverse()
             name = cfg.get("name", "")
+            by_name.setdefault(name, set()).add(kind)
             ctx.violation({"kind": kind, "source": label},
                           replay={"violation": v, "scenario_name": name, "events": scen[-400:]})
     ctx.extra["violation_kinds_seen"] = kinds
     ctx.traces_validated += res1["executed"] + res2["executed"]
     ctx.evaluations += res1["executed"] + res2["executed"]
-    # the directed schedules must actually reproduce the known deviations (binding check)
-    if "flush-missed-during-shutdown" not in kinds or "shutdown-missed-raced" not in kinds:
-        known = [k["id"] for k in ctx._known if k.get("status") == "known"]
-        if known:
-            ctx.extra["note"] = "a known deviation was not reproduced in this run: %s" % kinds
+    # the directed schedules must actually reproduce the known deviations (binding check; a note, not a verdict)
+    not_repro = [n_ for n_, k in EXPECT.items() if k not in by_name.get(n_, ())]
+    if not_repro:
+        ctx.extra["note"] = "directed schedules that did not exhibit their deviation in this run: %s" % not_repro
+    # vacuity of the new regimes (never a verdict)
+    need = ["abandoned", "ctx_expired", "exports_failed", "exports_timed_out", "ff_ret_ctx", "sd_ret_ctx", "ff_ret_export"]
+    missing = [k for k in need if not counters.get(k)]
+    if missing:
+        ctx.note_inconclusive("vacuity: regimes never reached on the real code: %s" % missing)
     ctx.exhaustive = False
     ctx.assumptions += [
-        "callers' contexts never expire (the quantifier ranges over exporter behaviours, not caller cancellation)",
-        "timer-triggered exports are exercised by perturbation only (Go's select cannot be gated)",
-        "Dropped / Ignored / FFEarly events come from the verif hooks in sdk/trace/batch_span_processor.go",
-        "goroutines blocked forever (D2/D3) are reported under C15, not here; such scenarios are marked non-quiescent",
+        "caller contexts: Background, already cancelled, cancelled during the call, far deadline (a deadline that fires is "
+        "driven as a cancellation so that its instant can be logged before it happens)",
+        "\"after Shutdown has returned\" is read literally (with or without error); what the code does after a Shutdown "
+        "whose ctx expired is classified separately (D5) from exports after a completed Shutdown",
+        "ExportTimeout > 0 <=> ExportSpans gets a ctx with deadline (godoc of BatchSpanProcessorOptions.ExportTimeout); an "
+        "export on behalf of a ForceFlush inherits the caller's deadline",
+        "timer-triggered exports: gated where the worker has nothing else to do (tiny BatchTimeout), otherwise by perturbation",
+        "Dropped / Ignored / Abandoned / FFEarly / FFMarker events come from the verif hooks in sdk/trace/batch_span_processor.go; "
+        "the dropped counter is read from the hook and from the SDK's `exporting spans` debug line",
+        "goroutines blocked forever (former D2/D3) are C15's verdict; here such scenarios are marked non-quiescent",
     ]
